@@ -195,6 +195,22 @@ theorem reply_opt_iff (entry : Ctx → Ctx × Bool) (q : Msg) (hv : validQuery q
         obtain ⟨h1, co, _, h3, h4⟩ := hro _ hopt
         exact ⟨h1, co, h3, h4⟩
 
+/-- **A client that did not send an OPT never gets one, extended rcode or not**: under the hypotheses of
+`reply_opt_iff`, if the reply carries an extended rcode (above 15: BADVERS, BADCOOKIE, ...) and the client's query
+had no OPT, the message is not packable and nothing is sent (rather than an OPT being made up for it). -/
+theorem ext_rcode_without_client_opt_is_dropped (entry : Ctx → Ctx × Bool) (q : Msg) (hv : validQuery q = true)
+    (hkeep : (entry (newContext q)).1.respOpt = (newContext q).respOpt)
+    (hstrip : ∀ r, (entry (newContext q)).1.resp = some r → countOpt r.extra = 0)
+    (truncate : Msg → Nat → Msg) (hno : countOpt q.extra ≠ 1) (r : Msg)
+    (hr : reply entry truncate false q = some r) (hext : 15 < r.rcode) : packable r = false := by
+  obtain ⟨r', hr', hc, _⟩ := reply_opt_iff entry q hv hkeep hstrip truncate
+  rw [hr] at hr'
+  cases hr'
+  simp only [hno, if_false] at hc
+  unfold packable Msg.countOpt
+  unfold countOpt at hc
+  simp [hc]; omega
+
 /-- Locally generated answers and upstream answers (≤ 1 OPT) satisfy the
 hypotheses of `reply_opt_iff`; so do cache hits because stored copies contain
 no OPT (C05 `stored_no_opt`). -/
